@@ -46,6 +46,76 @@ macro_rules! field_probe {
                     cx.eq("from_le_bytes_mod_order(any length)", &d, to(&<$T>::from_le_bytes_mod_order(&bytes)), want);
                 }
             }
+            // arkworks trait surface of every field (C11, C16, C17): big-integer conversions, both endiannesses, streams, flags, roots
+            #[cfg(feature = "ark")]
+            {
+                use ark_ff::{Field, PrimeField, Zero, One, BigInteger};
+                use ark_serialize::{CanonicalDeserialize, CanonicalSerialize, CanonicalSerializeWithFlags, CanonicalDeserializeWithFlags, EmptyFlags};
+                type BI = <$T as PrimeField>::BigInt;
+                for a in vals.iter() {
+                    let d = || format!("{} a = {}", $tag, a);
+                    let bi = BI::try_from(a.clone()).ok().unwrap();
+                    match <$T>::from_bigint(bi) { Some(x) => cx.eq("from_bigint", &d, to(&x), a.clone()), None => cx.cex("from_bigint rejects canonical", d(), "None".into(), "Some".into()) }
+                    cx.eq("into_bigint", &d, of(a).into_bigint(), bi);
+                    cx.eq("is_zero", &d, of(a).is_zero(), a == &n(0));
+                    cx.eq("is_one", &d, of(a).is_one(), a == &n(1));
+                    cx.eq("double", &d, to(&of(a).double()), f.add(a, a));
+                    let mut bytes = [0u8; $nb];
+                    of(a).serialize_compressed(&mut bytes[..]).unwrap();
+                    cx.eq("serialize_compressed", &d, bytes, le(a));
+                    let mut bytes = [0u8; $nb];
+                    of(a).serialize_uncompressed(&mut bytes[..]).unwrap();
+                    cx.eq("serialize_uncompressed", &d, bytes, le(a));
+                    match <$T>::deserialize_compressed(&le(a)[..]) { Ok(x) => cx.eq("deserialize_compressed", &d, to(&x), a.clone()), Err(_) => cx.cex("deserialize_compressed rejects canonical", d(), "Err".into(), "Ok".into()) }
+                    let mut v = Vec::new();
+                    of(a).serialize_with_flags(&mut v, EmptyFlags).unwrap();
+                    cx.eq("serialize_with_flags(EmptyFlags)", &d, v.clone(), le(a).to_vec());
+                    match <$T>::deserialize_with_flags::<_, EmptyFlags>(&v[..]) { Ok((x, _)) => cx.eq("deserialize_with_flags", &d, to(&x), a.clone()), Err(_) => cx.cex("deserialize_with_flags rejects canonical", d(), "Err".into(), "Ok".into()) }
+                    // decimal strings and BigUint
+                    let back: N = of(a).into();
+                    cx.eq("Into<BigUint>", &d, back, a.clone());
+                    cx.eq("From<BigUint>", &d, to(&<$T>::from(a.clone())), a.clone());
+                    match <$T as core::str::FromStr>::from_str(&a.to_string()) { Ok(x) => cx.eq("FromStr(decimal)", &d, to(&x), a.clone()), Err(_) => { if a != &n(0) { cx.cex("FromStr rejects a canonical decimal", d(), "Err".into(), "Ok".into()) } } }
+                    // square roots: sqrt(a^2) squares back to a^2; legendre agrees with Euler's criterion
+                    let sq = f.sq(a);
+                    match of(&sq).sqrt() { Some(y) => cx.eq("sqrt(a^2)^2 == a^2", &d, f.sq(&to(&y)), sq.clone()), None => cx.cex("sqrt rejects a square", d(), "None".into(), "Some".into()) }
+                    let euler = f.pow(a, &((&p - n(1)) / n(2)));
+                    let lg = of(a).legendre();
+                    cx.eq("legendre vs Euler", &d, (lg.is_zero(), lg.is_qr()), (euler == n(0), euler == n(1)));
+                    if euler != n(1) && euler != n(0) { cx.n += 1; if of(a).sqrt().is_some() { cx.cex("sqrt accepts a non-square", d(), "Some".into(), "None".into()); } }
+                    // hashing is consistent with equality: equal values built along different routes hash alike
+                    use std::hash::{Hash, Hasher};
+                    let h = |x: &$T| { let mut s = std::collections::hash_map::DefaultHasher::new(); x.hash(&mut s); s.finish() };
+                    let other = of(a) + <$T>::one() - <$T>::one();
+                    cx.eq("Hash(a) == Hash(a + 1 - 1)", &d, h(&of(a)), h(&other));
+                }
+                // exactly the integers below p are accepted
+                let mut edge = vec![p.clone(), &p + n(1), &top - n(1)];
+                for k in ($nb * 8 - 16)..($nb * 8) { let v = n(1) << k; if v >= p { edge.push(v); } }
+                for v in edge.iter() {
+                    let d = || format!("{} non-canonical integer {}", $tag, v);
+                    cx.n += 1;
+                    if <$T>::from_bigint(BI::try_from(v.clone()).ok().unwrap()).is_some() { cx.cex("from_bigint accepts an integer >= modulus", d(), "Some".into(), "None".into()); }
+                    cx.n += 1;
+                    if <$T>::deserialize_compressed(&le(v)[..]).is_ok() { cx.cex("deserialize_compressed accepts >= modulus", d(), "Ok".into(), "Err".into()); }
+                    cx.n += 1;
+                    if <$T>::deserialize_with_flags::<_, EmptyFlags>(&le(v)[..]).is_ok() { cx.cex("deserialize_with_flags accepts >= modulus", d(), "Ok".into(), "Err".into()); }
+                }
+                // reduction of byte strings of any length, both endiannesses
+                for len in 0..=200usize {
+                    for pat in 0..3 {
+                        let bytes: Vec<u8> = (0..len).map(|i| match pat { 0 => 0xffu8, 1 => (cx.rng.next() & 0xff) as u8, _ => if i == 0 { 1 } else { 0 } }).collect();
+                        let d = || format!("{} bytes (len {}) {:02x?}", $tag, len, bytes);
+                        cx.eq("from_be_bytes_mod_order(any length)", &d, to(&<$T>::from_be_bytes_mod_order(&bytes)), N::from_bytes_be(&bytes) % &p);
+                        cx.eq("PrimeField::from_le_bytes_mod_order(any length)", &d, to(&<$T as PrimeField>::from_le_bytes_mod_order(&bytes)), N::from_bytes_le(&bytes) % &p);
+                    }
+                }
+                // published constants agree with the modulus
+                cx.eq("MODULUS", &|| $tag.to_string(), { let m: N = <$T as PrimeField>::MODULUS.into(); m }, p.clone());
+                cx.eq("MODULUS_MINUS_ONE_DIV_TWO", &|| $tag.to_string(), { let m: N = <$T as PrimeField>::MODULUS_MINUS_ONE_DIV_TWO.into(); m }, (&p - n(1)) / n(2));
+                cx.eq("MODULUS_BIT_SIZE", &|| $tag.to_string(), <$T as PrimeField>::MODULUS_BIT_SIZE as u64, p.bits());
+                let _ = BI::from(1u64).is_zero();
+            }
             // arithmetic (C10)
             let nv = vals.len();
             for i in 0..nv {
